@@ -56,6 +56,8 @@ THEOREMS = [
     'PbBss.C03.fixed_point_cacg_balanced',
     'PbBss.C03.fixed_point_cacg_balanced_blur',
     'PbBss.C03.cacg_trajectory_stationary',
+    'PbBss.C03.fixed_point_gcacg_balanced',
+    'PbBss.C03.fixed_point_gcacg_sliced_balanced',
 ]
 ASSUMPTIONS = [
     'the theorems cover the RANKING MECHANISMS of the E-step (sign of the Watson / vMF concentration, reciprocal cACG '
@@ -78,8 +80,10 @@ ASSUMPTIONS = [
     'spherical GMM: n-step fixed point for the balanced scene from a strictly blurred start (fixed_point_sph_balanced); '
     'cACGMM: n-step fixed point for the balanced scene from the hard start and from blurred starts with h0 <= floor*g0 '
     '(fixed_point_cacg_balanced, _blur; stationary trajectory); '
-    'no theorem for the complex Bingham model, nor fixed-point theorems for the diagonal / full-covariance GMM and the two integration '
-    'models (their E-step ranking is covered by gauss_full_rank / gcacg_rank_scene / vmfcacg_rank_scene); guards carried as hypotheses: tiny > 0, quadratic-form floor inactive (tiny <= 1), denominator '
+    'GCACGMM (prodFamily of cACG and spherical Gaussian, also sliced over frequency bins): n-step fixed point for the balanced '
+    'two-stream scene from a blurred start with 0 < h0 <= floor*g0 (fixed_point_gcacg_balanced, fixed_point_gcacg_sliced_balanced); '
+    'no theorem for the complex Bingham model, nor fixed-point theorems for the diagonal / full-covariance GMM and vMF-cACGMM '
+    '(their E-step ranking is covered by gauss_full_rank / vmfcacg_rank_scene); guards carried as hypotheses: tiny > 0, quadratic-form floor inactive (tiny <= 1), denominator '
     'clamps inactive (tiny <= class mass, tiny <= 1/K), 0 < eigenvalue floor < 1',
     'correspondence on C03\'s own domain (separable scenes, blurred true start, code iterate i -> model step -> code iterate '
     'i+1, arg-max of the model E-step = arg-max of the code): cWMM, cACGMM, spherical / diagonal GMM; on this domain every '
